@@ -154,6 +154,8 @@ def _more(o, a, b):
             ds.sort_axis(axis="x")
         elif o == "ds_reindex_axis":
             ds.reindex_axis([10, 20, 40], axis="x")
+            ds.reindex_axis([30, 10, 15], axis="x")        # as many labels as the axis, found at positions 0..n-1, one of them missing
+            ds.reindex_axis([35, 10, 20], axis="x")
         elif o == "ds_interp_axis":
             ds.interp_axis([15., 25.], axis="x")
         elif o == "ds_add":
@@ -218,6 +220,21 @@ def _more(o, a, b):
         c = a.copy()
         c.axes["x"].name = "xx"
         c.dims = ("p", "q")
+    elif o == "copy_then_mutate_nested_attrs":
+        src = a.copy()
+        src.attrs["nested"] = {"steps": [1, 2], "grid": [[0, 1], [2, 3]]}
+        for make in (lambda x: x.copy(), lambda x: x.put(10, 0., inplace=False), lambda x: x.set_axis([1, 2, 3], axis="x", inplace=False)):
+            snap = deep_snapshot(src)
+            c = make(src)
+            c.attrs["nested"]["steps"].append(3)
+            c.attrs["nested"]["grid"][0][0] = 9
+            if deep_snapshot(src) != snap:
+                raise AssertionError("a change inside a nested metadata value of the copy shows through in the original")
+            csnap = deep_snapshot(c)
+            src.attrs["nested"]["grid"][1].append(7)
+            if deep_snapshot(c) != csnap:
+                raise AssertionError("a change inside a nested metadata value of the original shows through in the copy")
+            src.attrs["nested"]["grid"][1].pop()
     elif o == "copy_then_mutate_attrs":
         c = a.copy()
         c.attrs["mut"].append(1)
